@@ -223,3 +223,31 @@ Proof. exact progress_entries_independent_lemma. Qed.
 Theorem progress_entry_own_write :
   forall n c g l s v, store_get id_eqb (store_add s (seed_task_id n c g l) v) (seed_task_id n c g l) = v.
 Proof. exact progress_entry_own_write_lemma. Qed.
+
+(* ---- the hand-over to the worker processes (TileWorkerPool.process / stop, TileWorker.work_loop) *)
+
+(* process() either appends the list to the queue exactly once or leaves the queue untouched (and then does not report
+   success): a list is never dropped silently and never handed over twice *)
+Theorem pool_process_hands_over_once_or_not_at_all :
+  forall (T : Type) env (q : list (option T)) tiles,
+    (fst (pool_process env q tiles) = Handed /\ snd (pool_process env q tiles) = q ++ [Some tiles]) \/
+    (fst (pool_process env q tiles) <> Handed /\ snd (pool_process env q tiles) = q).
+Proof. exact pool_process_spec. Qed.
+
+(* however often the queue is full: while some worker is alive process() keeps trying and hands the list over *)
+Theorem pool_process_retries_while_workers_alive :
+  forall (T : Type) env1 env2 (q : list (option T)) tiles,
+    Forall (fun o => o = PutFull true) env1 ->
+    pool_process (env1 ++ PutOk :: env2) q tiles = (Handed, q ++ [Some tiles]).
+Proof. exact pool_process_alive. Qed.
+
+(* stop(): one sentinel per live worker behind everything handed over so far, then join.  For every number of workers
+   and every interleaving of their steps: once all workers have exited, every list that was queued, in flight or
+   finished before is finished - an interrupted run does not abandon tiles that the saved progress counts as done *)
+Theorem pool_stop_drains :
+  forall (T : Type) (ts : list T) (ws : list (wstat T)) done sched,
+    Forall (fun w => alive w = true) ws -> ws <> [] ->
+    let p1 := run_workers (pool_stop (mkPool (map Some ts) ws done)) sched in
+    Forall (fun w => w = WExited) (pw p1) ->
+    incl (done ++ busy T ws ++ ts) (pdone p1).
+Proof. exact pool_stop_drains_lemma. Qed.
